@@ -17,6 +17,7 @@ import Props.Lemmas.C15_Monitor
 import Props.Lemmas.C15_Links
 import Props.Lemmas.C15_Stays
 import Props.Lemmas.C15_Mixed
+import Generated.FsMove
 
 namespace Pypyr.C15
 open Pypyr.FsRewrite
@@ -957,6 +958,91 @@ example : (∀ k, ¬ TwoFaults (Plan.single 5 .raiseBase) k) ∧
   by_cases hq : q = 5
   · subst hq; simp at h2
   · simp [hq] at h1
+
+/-! ### The final move is an atomic replace or a failure
+
+The hypothesis under every theorem above, made explicit: the last step of the in-place route is ONE operation
+(`replace dst`) that either takes effect whole or faults without effect. It is a statement about `move_file`,
+tied to the tree under test statically (`move_file_is_replace_only`) and dynamically (the rename is made to fail
+with every errno class `rename(2)` documents and every one the code tests for; every `os.*` / `shutil.*` / `open`
+call made after the refused rename is itself a fault point, kills included; monitor: the source holds the
+complete original or the complete new bytes at every observed instant, and a refused rename ends in an error). -/
+
+/-- **replace_is_one_step** — the model's `replace`: when it takes effect the entry `dst` holds the COMPLETE
+    content of the temp file and the temp entry is gone, in one step; no intermediate state exists. -/
+theorem replace_is_one_step (dst : String) (st st' : St) (h : apply (.replace dst) st = some st') :
+    ∃ t c, st.temp = some t ∧ st.fs.get? t = some c ∧ st'.fs = (st.fs.erase t).set dst c := by
+  simp only [apply] at h
+  split at h
+  · cases h
+  · rename_i t ht
+    split at h
+    · cases h
+    · rename_i c hc
+      exact ⟨t, c, ht, hc, by cases h; rfl⟩
+
+/-- **faulted_operation_is_reported** — whatever operation the environment makes fail (the rename included,
+    whatever the reason: the model has ONE failure behaviour for all errno classes), the call does not end `ok`:
+    a failed rename is reported as a failure. -/
+theorem faulted_operation_is_reported (cfg : Cfg) (plan : Plan) (i : Nat) (st : St) (op : Op) (rest : List Op)
+    (h : plan i ≠ .none) : (exec cfg plan i st (op :: rest)).1 ≠ .ok := by
+  simp only [exec]
+  cases hp : plan i with
+  | none => exact absurd hp h
+  | kill => simp
+  | raise =>
+    simp only [handler]
+    repeat' split
+    all_goals simp
+  | raiseBase =>
+    simp only [handler]
+    repeat' split
+    all_goals simp
+
+/-- **failed_rename_leaves_original** — the rename of the example refused (index 9), for any reason: the call
+    raises, the directory is the original one (the general statements: `raise_leaves_no_temp`,
+    `src_always_whole`). -/
+example : (exec {} (Plan.single 9 .raise) 0 { fs := fsEx } (inplaceOps false "a.txt" "a.txt" "tmp#0" bodyEx)).1 = .raised 9 ∧
+    final fsEx (exec {} (Plan.single 9 .raise) 0 { fs := fsEx } (inplaceOps false "a.txt" "a.txt" "tmp#0" bodyEx)).2 = fsEx := by
+  decide +kernel
+
+/-- **move_file_is_replace_only** — the STATIC TIE (`Generated/FsMove.lean`, written by ast from
+    pypyr/utils/filesystem.py of the tree under test on every run): `move_file` calls `os.replace` and nothing
+    else (logging aside), `move_temp_file` calls `move_file` and `remove_temp_file`, `remove_temp_file` calls
+    `os.remove`; none of them tests an errno or an OSError subclass (one failure behaviour for all errno
+    classes); every handler of the first two re-raises. -/
+theorem move_file_is_replace_only :
+    Pypyr.Generated.FsMove.moveFileCalls = ["os.replace"] ∧
+    Pypyr.Generated.FsMove.moveTempFileCalls = ["move_file", "remove_temp_file"] ∧
+    Pypyr.Generated.FsMove.removeTempFileCalls = ["os.remove"] ∧
+    Pypyr.Generated.FsMove.errnoTests = [] ∧
+    Pypyr.Generated.FsMove.handlersReraise = true := by
+  decide
+
+/-- The operation list of the counter-model: 0 sameFile, 1 openRead, 2 mkTemp, 3 fmt, 4 write X, 5 fmt, 6 write Y,
+    7 close, 8 closeIn, (rename refused) 9 open the SOURCE for writing, 10 write X, 11 write Y, 12 close. -/
+example : inplaceFallbackOps false "a.txt" "a.txt" "tmp#0" bodyEx =
+    [.sameFile, .openRead "a.txt", .mkTemp "tmp#0", .fmt 1, .write 1 "X", .fmt 2, .write 2 "Y", .close, .closeIn,
+     .openWrite "a.txt", .write 1 "X", .write 2 "Y", .close] := by decide +kernel
+
+/-- **copy_fallback_tears_source** — the COUNTER-MODEL (NOT pypyr): a move that, when the rename is refused,
+    copies the temp file over the source instead (truncate, stream, close). (1) Even with no further fault
+    there is an instant at which the source holds neither the original (`AA`) nor the new content (`XY`): it
+    is empty; (2) the process dying during the copy leaves it partial; (3) a write failing during the copy
+    (no room on the volume) raises with the original gone. With `replace` as one step none of the three can
+    happen (`src_always_whole`, `kill_leaves_src_whole`, `raise_leaves_no_temp`). -/
+theorem copy_fallback_tears_source :
+    (∃ ev ∈ (exec {} Plan.clean 0 { fs := fsEx } (inplaceFallbackOps false "a.txt" "a.txt" "tmp#0" bodyEx)).2,
+        ev.2.get? "a.txt" = some "") ∧
+    ((exec {} (Plan.single 11 .kill) 0 { fs := fsEx } (inplaceFallbackOps false "a.txt" "a.txt" "tmp#0" bodyEx)).1 = .killed 11 ∧
+      (final fsEx (exec {} (Plan.single 11 .kill) 0 { fs := fsEx }
+        (inplaceFallbackOps false "a.txt" "a.txt" "tmp#0" bodyEx)).2).get? "a.txt" = some "X") ∧
+    ((exec {} (Plan.single 11 .raise) 0 { fs := fsEx } (inplaceFallbackOps false "a.txt" "a.txt" "tmp#0" bodyEx)).1 = .raised 11 ∧
+      (final fsEx (exec {} (Plan.single 11 .raise) 0 { fs := fsEx }
+        (inplaceFallbackOps false "a.txt" "a.txt" "tmp#0" bodyEx)).2).get? "a.txt" = some "X") := by
+  refine ⟨⟨("openWrite", [("a.txt", ""), ("b.txt", "BB"), ("tmp#0", "XY")]), by decide +kernel, by decide +kernel⟩, ?_, ?_⟩
+  · decide +kernel
+  · decide +kernel
 
 /-- The monitor is not vacuous: it rejects the pre-fix leftover and a truncated source; the weaker verdict
     tolerates the leftover (and nothing else); a source matched twice may hold either result. -/
